@@ -106,13 +106,13 @@ def run(ctx):
     chk.rule('A4', 'every load from a character object of known extent and every write (library writer with a size, unbounded writer, subscript/pointer store, (buffer,size) '
                    'contract at call sites) stays inside its destination object for all values the linear facts admit', floor=120)
     chk.rule('A4T', 'after a non-terminating writer a terminating store reaches every later use as a string', floor=8)
-    chk.rule('A4R', 'every data source leaves its result buffer NUL-terminated on every return path', floor=30)
+    chk.rule('A4R', 'every data source leaves its result buffer NUL-terminated on every return path', floor=20)
     chk.rule('A4O', 'no signed arithmetic on integers converted from input text without a dominating range check', floor=1)
     chk.rule('H1', 'every loop changes, on every way round, something one of its exit conditions depends on '
                    '(necessary for termination; not a termination proof)', floor=20)
     chk.rule('A9', 'an automatic char array or malloc()ed buffer is written (store, or a callee that may write it) on every '
                    'path before it is read (load, const-pointee / %s argument, strcat destination, reading callee)', floor=30)
-    chk.rule('A5', 'results that may be NULL / buffers only valid on success are tested before use', floor=60)
+    chk.rule('A5', 'results that may be NULL / buffers only valid on success are tested before use', floor=40)
     chk.rule('D1', 'derived facts the bounds rely on: the clamp of the length parser and the range of the two limits; '
                    'the INI line cap covers the fixed filter-name buffer', floor=4)
     chk.explanation = (
